@@ -78,7 +78,8 @@ def replay(behaviour, shorthand=None):
     from bycycle.features import compute_features, compute_shape_features, compute_burst_features
     from bycycle.burst.utils import recompute_edges
     from bycycle.utils import limit_df, epoch_df, drop_samples_df
-    from bycycle.plts import plot_burst_detect_summary
+    from bycycle.plts import (plot_burst_detect_summary, plot_cyclepoints_df, plot_cyclepoints_array, plot_burst_detect_param,
+                              plot_feature_hist, plot_feature_categorical)
     from bycycle.group import compute_features_2d, compute_features_3d
     import pandas as pd
     SIG = signals()
@@ -110,6 +111,7 @@ def replay(behaviour, shorthand=None):
         NOISY = {s: np.round((0.06 * SIG[s] + 4.0 * np.sin(2 * np.pi * 0.4 * np.arange(len(SIG[s])) / FS) + 0.01 * rngn.standard_normal(len(SIG[s]))) * 512) / 512 for s in (1, 2)}
         SHPN = {s: compute_shape_features(NOISY[s].copy(), FS, FR) for s in (1, 2)}        # small rhythm on a large slow wave: inverted flanks (negative volt_rise / volt_decay) occur
         NOB = {s: compute_features(SIG[s].copy(), FS, FR, threshold_kwargs={'amp_fraction_threshold': 1.0, 'min_n_cycles': 3}) for s in (1, 2)}   # no burst at all
+        ARRS = {k: [np.array(t[c].values) for c in ('sample_peak', 'sample_last_trough', 'sample_zerox_rise', 'sample_zerox_decay')] for k, t in TAB.items()}
     # persistent per-signal option lists for the group functions: the OUTER dictionaries and the list are the user's objects too
     centre = {}
     OUTER = {m: [{'burst_method': m, 'threshold_kwargs': D[1 if m == 'cycles' else 3], 'burst_kwargs': D[2], 'center_extrema': 'peak'} for _ in range(2)] for m in ('cycles', 'amp')}
@@ -118,7 +120,7 @@ def replay(behaviour, shorthand=None):
     events = []
     for a in behaviour:
         ev = {'a': a['a'], 'o': a['o'], 'method': a['method'], 'tk': a['tk'], 's': a['s'], 'v': a['v'], 'f': a.get('f', ''), 'raised': '',
-              'df_fp': 0, 'fresh_fp': 0, 'attr_col': '', 'attr_missing': '', 'pre': [], 'post': [], 'result_fp': 0}
+              'df_fp': 0, 'fresh_fp': 0, 'before_fp': 0, 'fresh_raised': '', 'attr_col': '', 'attr_missing': '', 'pre': [], 'post': [], 'result_fp': 0}
         with warnings.catch_warnings():
             warnings.simplefilter('ignore')
             try:
@@ -143,6 +145,20 @@ def replay(behaviour, shorthand=None):
                     ev['df_fp'] = pt.table_fp(b.df_features)
                     thr = {k: (v - (red or 0) if k.endswith('_threshold') else v) for k, v in intent[a['tk']].items()}
                     ev['fresh_fp'] = pt.table_fp(recompute_edges(before, thr))
+                elif a['a'] == 'RecomputeRaises':
+                    b = objs[a['o']]
+                    before = None if b.df_features is None else b.df_features.copy()
+                    ev['before_fp'] = 0 if before is None else pt.table_fp(before)
+                    ev['fresh_raised'] = ''
+                    try:
+                        recompute_edges(None if before is None else before.copy(), copy.deepcopy(intent[a['tk']]))
+                    except Exception as ex:
+                        ev['fresh_raised'] = type(ex).__name__
+                    try:
+                        b.recompute_edges()
+                    except Exception as ex:
+                        ev['raised'] = type(ex).__name__
+                    ev['df_fp'] = 0 if b.df_features is None else pt.table_fp(b.df_features)
                 elif a['a'] == 'Load':
                     b = objs[a['o']]
                     df = LOAD[a['s']].copy()
@@ -181,7 +197,7 @@ def replay(behaviour, shorthand=None):
                 else:
                     f, m, tk, s = a['f'], a['method'], a['tk'], a['s']
                     sig = SIG[s]
-                    tab = TAB[(s, m)] if f in ('recompute_edges', 'limit_df', 'epoch_df', 'drop_samples_df', 'plot') else (SHP[s] if f == 'compute_burst_features' else None)
+                    tab = TAB[(s, m)] if f in ('recompute_edges', 'limit_df', 'epoch_df', 'drop_samples_df', 'plot') or f.startswith('plot_') else (SHP[s] if f == 'compute_burst_features' else None)
                     if f == 'recompute_edges_no_burst':
                         tab = NOB[s]
                     elif f == 'limit_df_keeping_all_cycles':
@@ -193,7 +209,8 @@ def replay(behaviour, shorthand=None):
                         sig = SIGS2
                     elif f == 'compute_features_3d':
                         sig = SIGS3
-                    ev['pre'] = arg_fp(sig, dicts, tab)
+                    extra = (lambda: [tt.col_fp(np.concatenate(ARRS[(s, m)]).astype(float))]) if f == 'plot_cyclepoints_array' else (lambda: [])
+                    ev['pre'] = arg_fp(sig, dicts, tab) + extra()
                     if f == 'compute_features':
                         res = compute_features(sig, FS, FR, burst_method=m, burst_kwargs=D[2], threshold_kwargs=D[tk], find_extrema_kwargs=D[4])
                     elif f == 'compute_shape_features':
@@ -220,13 +237,30 @@ def replay(behaviour, shorthand=None):
                         res = epoch_df(tab, len(sig), FS)[1]
                     elif f == 'drop_samples_df':
                         res = drop_samples_df(tab)
+                    elif f.startswith('plot_'):
+                        # the other plotting functions: purity only (what they draw is C20); the cyclepoint arrays are the user's objects too
+                        try:
+                            if f == 'plot_cyclepoints_df':
+                                plot_cyclepoints_df(tab, sig, FS, xlim=(0.5, 2.0))
+                            elif f == 'plot_cyclepoints_array':
+                                arrs = ARRS[(s, m)]
+                                plot_cyclepoints_array(sig, FS, peaks=arrs[0], troughs=arrs[1], rises=arrs[2], decays=arrs[3], xlim=(0.5, 2.0))
+                            elif f == 'plot_burst_detect_param':
+                                plot_burst_detect_param(tab, sig, FS, 'period_consistency' if m == 'cycles' else 'burst_fraction', 0.5, xlim=(0.5, 2.0))
+                            elif f == 'plot_feature_hist':
+                                plot_feature_hist(tab, 'period', only_bursts=bool(s == 1), xlim=(0, 200))
+                            else:
+                                plot_feature_categorical(tab, 'time_rdsym', group_by='is_burst')
+                        finally:
+                            plt.close('all')
+                        res = None
                     else:
                         try:
                             plot_burst_detect_summary(tab, sig, FS, D[tk])
                         finally:
                             plt.close('all')
                         res = None
-                    ev['post'] = arg_fp(sig, dicts, tab)
+                    ev['post'] = arg_fp(sig, dicts, tab) + extra()
                     ev['result_fp'] = pt.table_fp(res) if res is not None else 1
             except Exception as ex:
                 ev['raised'] = type(ex).__name__ + ':' + str(ex)[:70]
